@@ -26,7 +26,7 @@ LEVEL_NOTE = ("Trusted: vlib/model/busmodel.py for map()/advance; the wrapper ob
 DESIGN_REF = "DESIGN.md §3 C02"
 ASSUMPTIONS = ["labels under @= relocation, in macro bodies and in loops are covered by oracle (1) only"]
 
-PROFILE = progen.Profile(unsized_symbols=True, shadowing=True, max_stmts=14, max_depth=3, edge_weight=0.5)
+PROFILE = progen.Profile(unsized_symbols=True, shadowing=True, param_named_consts=True, max_stmts=14, max_depth=3, edge_weight=0.5, call_weight=5)
 
 # ---- run-time wrapping (from the harness side) --------------------------------------------------------------
 _REC = None
